@@ -7,6 +7,8 @@ import (
 	"fmt"
 	"os"
 	"os/exec"
+	"regexp"
+	"strconv"
 	"runtime/debug"
 	"strings"
 	"sync"
@@ -56,7 +58,7 @@ var childJobs []*childJob
 
 // runChildJobs runs the queued jobs on a small pool of child processes and judges them in queue order.
 func runChildJobs() {
-	sem := make(chan struct{}, 6)
+	sem := make(chan struct{}, 4)
 	var wg sync.WaitGroup
 	for _, j := range childJobs {
 		wg.Add(1)
@@ -73,7 +75,9 @@ func runChildJobs() {
 	}
 }
 
-const childLimit = 8 << 30
+var reBlock = regexp.MustCompile(`cannot allocate (\d+)-byte block`)
+
+const childLimit = 3 << 30
 
 func decodeTask(t task) []stageOut {
 	switch t.Kind {
@@ -181,8 +185,16 @@ func runInChild(tasks []task) map[int][]stageOut {
 		if !memoryWords(words) {
 			vh.Fatalf("decoder child died for a reason that is not memory exhaustion (%v): %s", runErr, clipStr(words, 1500))
 		}
-		// The child ran out of address space while working on this task.  Memory left over from earlier tasks of
-		// the batch may have contributed: run the task alone in a fresh child and believe only that.
+		// The child ran out of address space while working on this task.  If the runtime names a single block of
+		// more than the per-call cap, the task asked for it.  Otherwise memory left over from earlier tasks (or a
+		// thread stack) may have tipped it over: run the task alone in a fresh child and believe only that.
+		if m := reBlock.FindStringSubmatch(words); m != nil {
+			if n, _ := strconv.ParseUint(m[1], 10, 64); n > allocCap {
+				out[culprit.Idx] = []stageOut{{Entry: entry, O: outcome{"runaway-allocation", fmt.Sprintf("the decoder asked for a single block of %d bytes", n), n}}}
+				rest = rest[done+1:]
+				continue
+			}
+		}
 		if st, w2, ok := runOne(self, culprit); ok {
 			out[culprit.Idx] = st
 			rest = rest[done+1:]
@@ -192,7 +204,7 @@ func runInChild(tasks []task) map[int][]stageOut {
 		} else {
 			words = w2
 		}
-		out[culprit.Idx] = []stageOut{{Entry: entry, O: outcome{"runaway-allocation", "the decoder process hit its 8 GiB address-space limit: " + firstLine(words), childLimit}}}
+		out[culprit.Idx] = []stageOut{{Entry: entry, O: outcome{"runaway-allocation", "the decoder process hit its 3 GiB address-space limit: " + firstLine(words), childLimit}}}
 		rest = rest[done+1:]
 	}
 	return out
